@@ -23,6 +23,12 @@ import (
 // never a verdict about the property, only "inconclusive".
 const watchdog = 120 * time.Second
 
+func newWG(n int) *sync.WaitGroup {
+	wg := &sync.WaitGroup{}
+	wg.Add(n)
+	return wg
+}
+
 // waitOrWatchdog waits for wg; false = the watchdog fired.
 func waitOrWatchdog(wg *sync.WaitGroup, d time.Duration) bool {
 	done := make(chan struct{})
